@@ -21,6 +21,8 @@ let lane_parse args =
   show_pres show_tree (parse_tag' (lim true max_depth) O (nat_of_int (List.length bs + 1)) bs)
 
 let lane_enc args = hex_of_bytes (encode (parse_tree (List.hd args)))
+let lane_lenhdr args = let n = int_of_string (List.hd args) in
+  let hdr = byte_of_int 4 :: write_length (n_of_int n) in Printf.sprintf "%s total=%d" (hex_of_bytes hdr) (List.length hdr + n)
 let lane_int args = hex_of_bytes (int_octets (z_of_decimal (List.hd args)))
 let lane_bool args = hex_of_bytes (bool_octets (List.hd args = "1"))
 
@@ -303,6 +305,7 @@ let dispatch lane args =
   match lane with
   | "parse" -> lane_parse args
   | "enc" -> lane_enc args
+  | "lenhdr" -> lane_lenhdr args
   | "int" -> lane_int args
   | "bool" -> lane_bool args
   | "frame" -> lane_frame args
